@@ -457,6 +457,7 @@ type FuncSpec struct {
 	Kind     string // func, iface, funcfield
 	Trusted  bool
 	Pure     bool
+	AliasPkg string // iface alias: package of the concrete method
 	Requires []Clause
 	Ensures  []Clause
 	Modifies []Expr
@@ -837,7 +838,20 @@ func ParseContractFile(path string, pkgPath string) (*ContractFile, error) {
 					rest = strings.TrimSpace(rest[:i])
 				}
 			}
-			cur = &FuncSpec{Name: rest, Kind: kw, Trusted: trusted, Loops: map[int]*LoopSpec{}, Pkg: cf.Pkg, File: path, AliasOf: alias}
+			aliasPkg := ""
+			if kw == "iface" {
+				// iface I.m = method <package path> <(*T).m>: every value of the interface is (proved at each call to be)
+				// a *T of that package, and the concrete method's contract applies
+				if i := strings.Index(rest, " = method "); i >= 0 {
+					f2 := strings.Fields(rest[i+len(" = method "):])
+					if len(f2) != 2 {
+						return nil, fail(l, fmt.Errorf("iface alias: want '= method <package path> <method>'"))
+					}
+					aliasPkg, alias = f2[0], f2[1]
+					rest = strings.TrimSpace(rest[:i])
+				}
+			}
+			cur = &FuncSpec{Name: rest, Kind: kw, Trusted: trusted, Loops: map[int]*LoopSpec{}, Pkg: cf.Pkg, File: path, AliasOf: alias, AliasPkg: aliasPkg}
 			cf.Funcs = append(cf.Funcs, cur)
 			curLemma = nil
 			continue
